@@ -31,7 +31,7 @@ CHECKS = {
          "DESIGN.md §3 C06"),
  "C02": ("model_checking",
          "enumeration of multi-host attack worlds (slot x presentation x attacker) x warming histories x cache sizes through the real FetchUnknown / pub.New; provenance judged from text every served object carries",
-         "2 attackers x 17 reference slots (incl. references wrapped in an inline Create, and five whose carrier is a genuine document of the victim host pointing at a collection served by the attacker) x 20 presentations (incl. redirects and stubs whose landing document is honest about itself) of a forged copy of h1's note or actor x 4 warming histories (thorough: every ordered pair of warming steps) x cache sizes {128,1} (quick) / {128,1,2} (thorough); per case pub.New by URL (twice), as an embedded value with and without source, and client.FetchUnknown three times, with every reachable creator, recipient, parent, child, actor and target inspected: an item shown with an id on host H only ever shows text served by H, and FetchUnknown never returns an (object, id) pair whose stamp differs from the id's host.",
+         "4 attackers (two ordinary hosts, the victim name on another port, the victim name with a trailing digit) x 17 reference slots (incl. references wrapped in an inline Create, and five whose carrier is a genuine document of the victim host pointing at a collection served by the attacker) x 20 presentations (incl. redirects and stubs whose landing document is honest about itself) of a forged copy of h1's note or actor x 4 warming histories (thorough: every ordered pair of warming steps) x cache sizes {128,1} (quick) / {128,1,2} (thorough); per case pub.New by URL (twice), as an embedded value with and without source, and client.FetchUnknown three times, with every reachable creator, recipient, parent, child, actor and target inspected: an item shown with an id on host H only ever shows text served by H, and FetchUnknown never returns an (object, id) pair whose stamp differs from the id's host.",
          "Env-B (hosts = dial addresses of the verifrt.Dial seam). Embedded values are passed with the source of their enclosing document, as servitor's own callers do. Completeness (no false 'forged') is not judged.",
          "DESIGN.md §3 C02"),
  "C09": ("exploration",
@@ -46,7 +46,7 @@ CHECKS = {
          "DESIGN.md §3 C04"),
  "C05": ("fault_enumeration",
          "exhaustive fault-point enumeration (every cut byte x FIN/RST/stall x every hop, trickle, connection-stage faults) over a response corpus on the real fetch path with virtual-time connections",
-         "10 exchanges (single responses, a 3-hop and a 7-hop redirect chain, webfinger, pub.New on an actor with outbox); every byte offset of every response as a cut with FIN, with RST and as a stall, trickle from 3 offsets, refused and stalled connections, at every hop (5 739 fault runs quick; thorough cuts the 4 kB response at every byte too): the call returns, no panic, no hang (a stalled read must meet an armed deadline), virtual time <= 5 x timeout per redirect hop of the scenario (retries do not raise the allowance), and no document unless the whole JSON object was delivered.",
+         "11 exchanges (single responses, a 3-hop and a 7-hop redirect chain, webfinger, pub.New on an actor with outbox and on a post with separately fetched replies, both then rendered); every byte offset of every response as a cut with FIN, with RST and as a stall, trickle from 3 offsets, refused and stalled connections, at every hop (5 739 fault runs quick; thorough cuts the 4 kB response at every byte too): the call returns, no panic, no hang (a stalled read must meet an armed deadline), virtual time <= 5 x timeout per redirect hop of the scenario (retries do not raise the allowance), and no document unless the whole JSON object was delivered.",
          "Env-B: in-memory connections with a virtual clock (rt/verifrt/net.go) model net.Conn deadlines. Env-A part (run first): one real-time case per stall stage (before/in status line, headers, after headers, body, trickle, truncated body, silent peer that never completes the TLS handshake) over real TLS with a 1 s timeout; each must end in an error within 5 x timeout + 3 s (deliberately loose).",
          "DESIGN.md §3 C05"),
  "C03": ("model_checking",
@@ -61,7 +61,7 @@ CHECKS = {
          "DESIGN.md §3 C20"),
  "C11": ("model_checking",
          "enumeration of source tuples x explicit-state search over request sequences on the real Splicer against a reference merge",
-         "All tuples of up to 2 sources with up to 3 items and 3 sources with up to 2 items (quick, 16 572 tuples) / all tuples of up to 3 sources with up to 3 items (thorough, 621 436), timestamps from {missing,t1,t2,t3} in every order; per tuple a breadth-first search over reference states (items delivered) with request sizes {0,1,2,3,5}, every transition replayed on a fresh Splicer, every continuation asked twice, start offsets 1..3 on the initial feed, unmerged request sequences (the caller keeps the first answer and asks the continuation again without merging), the continuation returned at exhaustion harvested once, and long sources (up to 100 items, sizes around 20, 40, 64) under requests of 19..128 items, so that thresholds inside the implementation are crossed.",
+         "All tuples of up to 2 sources with up to 3 items and 3 sources with up to 2 items (quick, 16 572 tuples) / all tuples of up to 3 sources with up to 3 items (thorough, 621 436), timestamps from {missing,t1,t2,t3} in every order; per tuple a breadth-first search over reference states (items delivered) with request sizes {0,1,2,3,5}, every transition replayed on a fresh Splicer, every continuation asked twice, start offsets 1..3 on the initial feed, unmerged request sequences (the caller keeps the first answer and asks the continuation again without merging), the continuation returned at exhaustion harvested once, long sources (up to 100 items, sizes around 20, 40, 64) under requests of 19..128 items, so that thresholds inside the implementation are crossed, and real posts built from JSON with six spellings of the published time (fractions of a second, an offset, none) in every pair of sources with <=2 items.",
          "Trusted: the reference merge and the synthetic Container sources in checks/c11; splicer.VerifNewSplicer (accessor) builds the state NewSplicer leaves behind. NewSplicer's own fetch fan-out is covered by C08's scenarios, not here.",
          "DESIGN.md §3 C11"),
  "C10": ("model_checking",
